@@ -315,11 +315,11 @@ fn amount(rng: &mut Rng) -> String {
 }
 
 fn gen_rune_id(rng: &mut Rng) -> RuneIdRef {
-  match rng.below(12) {
+  match rng.below(14) {
     0..=4 => RuneIdRef::Held(rng.below(16) as u32),
     5..=8 => RuneIdRef::Known(rng.below(16) as u32),
-    7 => RuneIdRef::Zero,
-    8 => RuneIdRef::Raw(rng.below(200), rng.below(6) as u32),
+    9..=10 => RuneIdRef::Zero,
+    11..=12 => RuneIdRef::Raw(rng.below(200), rng.below(6) as u32),
     _ => RuneIdRef::Raw(rng.next_u64(), rng.next_u64() as u32),
   }
 }
